@@ -1,17 +1,17 @@
 package api
 
-// C02 — REST tier: the full chain built by engine.bindRoute (tracing, log,
+// C02 — REST tier: a server assembled through the public API (api.NewServer +
+// AddRoute/AddRoutes with generated RouteOption lists) and the full chain built by
+// engine.bindRoute (tracing, log,
 // prometheus, MaxConns, breaker, [shedding], timeout, recover, metric, MaxBytes,
 // gunzip) on the real router, one fresh engine per case, served inside a
 // synctest bubble through the recording client of c02_common_test.go.
 
 import (
-	"fmt"
 	"net/http"
 	"net/http/httptest"
 	"testing"
 
-	"github.com/gotid/god/api/router"
 	"github.com/gotid/god/lib/logx"
 	"github.com/gotid/god/lib/stat"
 	"time"
@@ -19,22 +19,50 @@ import (
 	"verif.local/kit"
 )
 
+func c02RouteOptions(os []c02Opt) []RouteOption {
+	var out []RouteOption
+	for _, o := range os {
+		switch o.K {
+		case "prefix":
+			out = append(out, WithPrefix(o.S))
+		case "maxbytes":
+			out = append(out, WithMaxBytes(int64(o.N)))
+		case "timeout":
+			out = append(out, WithTimeout(time.Duration(o.N)*c02Tick))
+		case "priority":
+			out = append(out, WithPriority())
+		}
+	}
+	return out
+}
+
+// c02BuildEngine goes through the public server API: api.NewServer (what MustNewServer
+// calls), Server.AddRoute / AddRoutes with the case's RouteOption list in the case's
+// order, then the engine binds the routes on the server's own router exactly as
+// Server.Start does before it listens.
 func c02BuildEngine(c c02Case, h http.HandlerFunc) (func(int, http.ResponseWriter, *http.Request), error) {
 	cfg := Config{Timeout: int64(c.T), MaxConns: c.MC, MaxBytes: int64(c.MB), Verbose: c.V}
-	cfg.Name = "c02"
-	ng := newEngine(cfg) // CpuThreshold 0: no shedder in the chain (it reads the real CPU load of the machine)
-	for i, r := range c.R {
-		ng.addRoutes(featuredRoutes{
-			timeout:  time.Duration(r.TO) * c02Tick,
-			maxBytes: int64(r.MB),
-			routes:   []Route{{Method: c02Method(r.M), Path: fmt.Sprintf("/c02/r%d", i), Handler: h}},
-		})
-	}
-	rt := router.NewRouter()
-	if err := ng.bindRoutes(rt); err != nil {
+	cfg.Name = "c02" // CpuThreshold 0: no shedder in the chain (it reads the real CPU load of the machine)
+	srv, err := NewServer(cfg)
+	if err != nil {
 		return nil, err
 	}
-	return func(_ int, w http.ResponseWriter, r *http.Request) { rt.ServeHTTP(w, r) }, nil
+	var rs []Route
+	for i, r := range c.R {
+		if !r.Sh {
+			rs = []Route{{Method: c02Method(r.M), Path: c.basePath(i), Handler: h}}
+		}
+		shared := r.Sh || (i+1 < len(c.R) && c.R[i+1].Sh)
+		if !shared && i%2 == 0 {
+			srv.AddRoute(rs[0], c02RouteOptions(r.O)...)
+		} else {
+			srv.AddRoutes(rs, c02RouteOptions(r.O)...)
+		}
+	}
+	if err := srv.ng.bindRoutes(srv.router); err != nil {
+		return nil, err
+	}
+	return func(_ int, w http.ResponseWriter, r *http.Request) { srv.router.ServeHTTP(w, r) }, nil
 }
 
 func init() {
@@ -42,13 +70,13 @@ func init() {
 	stat.DisableLog()
 	// warm up process-wide singletons (prometheus vectors, otel globals, log
 	// writer) outside any bubble: one request through a complete chain.
-	serve, err := c02BuildEngine(c02Case{T: 1000, MC: 1, MB: 8, R: []c02Route{{M: "POST"}}},
+	serve, err := c02BuildEngine(c02Case{T: 1000, MC: 1, MB: 8, R: []c02Route{{M: "POST", O: []c02Opt{{K: "prefix", S: "/v1"}}}}},
 		func(w http.ResponseWriter, r *http.Request) { w.Write([]byte("warm")) })
 	if err != nil {
 		panic(err)
 	}
 	for _, cl := range []int64{1, 100} {
-		r := httptest.NewRequest("POST", "/c02/r0", nil)
+		r := httptest.NewRequest("POST", "/v1/c02/r0", nil)
 		r.ContentLength = cl
 		serve(0, httptest.NewRecorder(), r)
 	}
